@@ -64,6 +64,14 @@ func FmtDiffs(input string) ([]FmtDiff, error) {
 				ToLine:   diff.FromLine,
 				NewText:  "\n",
 			})
+		} else if diff.FromLine == lastEnd+1 && lines.lines[lastEnd] != "" {
+			// a one line gap holding only white space is still rewritten to
+			// the empty line Fmt prints
+			out = append(out, FmtDiff{
+				FromLine: lastEnd,
+				ToLine:   diff.FromLine,
+				NewText:  "\n",
+			})
 		}
 		existing := lines.rangeLines(diff.FromLine, diff.ToLine)
 		if existing != diff.NewText {
